@@ -71,18 +71,26 @@ def norm_operand(t):
 
 
 def atoms_of(e):
-    """conjunction of comparison atoms of a boolean expression; None if not a pure conjunction of comparisons"""
-    e = strip(e)
-    if e.get("k") == "bin" and e["op"] == "&&":
-        a, b = atoms_of(e["lhs"]), atoms_of(e["rhs"])
-        if a is None or b is None:
+    """the literals of a boolean expression that is (equivalent to) a conjunction of == / != comparisons, in any spelling (nested early
+    returns, negated tests, De Morgan forms): decided on its truth table - a conjunction of literals has exactly one satisfying row;
+    None if it is not such a conjunction"""
+    from .common import bexp, truth_table
+    try:
+        atoms, table = truth_table(bexp(_FN.get("F"), e, _DEFS.get("defs", {})))
+    except Exception:
+        return None
+    if not atoms or sum(1 for v in table if v) != 1:
+        return None
+    import itertools
+    row = [vals for vals, v in zip(itertools.product((False, True), repeat=len(atoms)), table) if v][0]
+    out = set()
+    for a, val in zip(atoms, row):
+        if "==" not in a:
             return None
-        return a | b
-    if e.get("k") == "bin" and e["op"] in ("==", "!="):
-        l, r = norm_operand(_optxt(e["lhs"])), norm_operand(_optxt(e["rhs"]))
-        l, r = sorted((l, r))
-        return {(e["op"], l, r)}
-    return None
+        l, r = a.split("==", 1)
+        l, r = sorted((norm_operand(l), norm_operand(r)))
+        out.add(("==" if val else "!=", l, r))
+    return out
 
 
 def query_atoms(F, b):
